@@ -1588,8 +1588,12 @@ class Connection(object):
             elif isinstance(result, InvalidRequestException):
                 callback(self, result.to_exception())
             else:
-                callback(self, self.defunct(ConnectionException(
-                    "Problem while setting keyspace: %r" % (result,), self.endpoint)))
+                # defunct() returns None when the connection is already defunct or closed
+                # (e.g. it was lost while the USE was pending): still report the failure
+                conn_exc = ConnectionException(
+                    "Problem while setting keyspace: %r" % (result,), self.endpoint)
+                self.defunct(conn_exc)
+                callback(self, conn_exc)
 
         # We've incremented self.in_flight above, so we "have permission" to
         # acquire a new request id
